@@ -92,7 +92,7 @@ def case_spellings(rng, word, n):
 
 
 # ------------------------------------------------------------------------------------------------ C12
-C12_THEOREMS = ["C12_five_tables", "C12_tables_nodup", "C12_lookups_inverse", "C12_invert_deterministic",
+C12_THEOREMS = ["C12_agrees_with_oracles_by_number", "C12_five_tables", "C12_tables_nodup", "C12_lookups_inverse", "C12_invert_deterministic",
                 "C12_agrees_with_oracles", "C12_oracles_overlap", "C12_audit_ids", "C12_alias_case_insensitive",
                 "C12_alias_pairs", "C12_getinfo_shape", "C12_unsupported", "C12_supported_set"]
 
@@ -163,6 +163,31 @@ def check_C12(ctx, replay=None):
             p = ctx.violation("counterexample", dict(what="the audit identifier of arch.%s is not the kernel's AUDIT_ARCH constant" % k,
                                                      record=k, actual="0x%x" % r["id"], kernel="0x%x" % kernel_id[k]), True)
             rewrite_with_replay_cmd(ctx, p)
+    # direct search: every number of a runtime table against the independent tables (vendored: kernel UAPI headers, x/sys,
+    # Go's syscall package), by number as well as by name
+    otxt = open(os.path.join(COQ, "oracle", "OracleTables.v")).read()
+    otables = {}
+    for m in re.finditer(r'Definition (\w+) : list \(N \* string\) := \[(.*?)\]\.', otxt, re.S):
+        otables[m.group(1)] = [(int(a), b) for a, b in re.findall(r'\((\d+), "([^"]*)"%string\)', m.group(2))]
+    for m in re.finditer(r'\("(\w+)"%string, "(\w+)"%string, (\w+)\)', otxt):
+        oname, abi, tname = m.group(1), m.group(2), m.group(3)
+        rt = dict(nums.get(abi, []))
+        rn = {s: n for (n, s) in nums.get(abi, [])}
+        onum = {}
+        for (n, s) in otables.get(tname, []):
+            onum.setdefault(n, set()).add(s.encode())
+            evaluations += 1
+            if s.encode() in rn and rn[s.encode()] != n:
+                nbad += 1
+                p = ctx.violation("counterexample", dict(what="a syscall number of arch.%s disagrees with an independent source" % abi, source=oname,
+                                                         name=s, table_number=rn[s.encode()], source_number=n), True)
+                rewrite_with_replay_cmd(ctx, p)
+        for n, s in rt.items():
+            if n in onum and s not in onum[n] and not (s == b"fstatat" and b"newfstatat" in onum[n]):
+                nbad += 1
+                p = ctx.violation("counterexample", dict(what="arch.%s gives a number to another syscall than an independent source does" % abi, source=oname,
+                                                         number=n, table_name=s.decode(), source_names=sorted(x.decode() for x in onum[n])), True)
+                rewrite_with_replay_cmd(ctx, p)
     ids_seen = {}
     for k, r in recs.items():
         ids_seen.setdefault(r["id"], []).append(k)
@@ -207,6 +232,19 @@ def check_C12(ctx, replay=None):
     for ln in r.stdout.splitlines():
         f = ln.split()
         obs.append((unhex(f[0]), f[1], f[2] if len(f) > 2 else None))
+    # the default architecture (empty name) must not depend on what was looked up before in the process
+    native = obs[0][2] if obs and obs[0][0] == b"" else None
+    for first in ["arm", "386", "x32", "arm64", "ARM", "nope", "mips"]:
+        rr = ctx.run_harness(["getinfo"], "x%s\nx\nx%s\nx\n" % (first.encode().hex(), "amd64".encode().hex()))
+        got = [ln.split() for ln in rr.stdout.splitlines()]
+        evaluations += len(got)
+        for gline in got:
+            if unhex(gline[0]) == b"" and (gline[1:2] != ["OK"] or (gline[2] if len(gline) > 2 else None) != native):
+                nbad += 1
+                p = ctx.violation("counterexample", dict(what="arch.GetInfo(\"\") depends on the lookups made before it in the process",
+                                                         lookups_in_order=[first, "", "amd64", ""], expected=native, actual=" ".join(gline[1:])), True)
+                rewrite_with_replay_cmd(ctx, p)
+                break
     evaluations += len(obs)
     goarch = subprocess.run(["go", "env", "GOARCH"], capture_output=True, text=True, env=GOENV).stdout.strip()
     ncorr = 0
@@ -780,9 +818,14 @@ def check_C13(ctx, replay=None):
         an = rng.choice(PolicyGen.TABLE_ARCHES + ["X32"])
         defect = rng.choice(PolicyGen.DEFECTS) if rng.random() < 0.1 else None
         pol = pg.policy(archname=an, kind=kind, defect=defect)
-        lines.append("P d%d %d %s %s" % (i, rng.randint(0, 1), an, PolicyGen.tokens(pol)))
+        le = rng.randint(0, 1)
+        lines.append("P d%d %d %s %s" % (i, le, an, PolicyGen.tokens(pol)))
+        if not defect and pol["groups"] and rng.random() < 0.1:
+            # policies that differ only in one group's (unnamed) action: none may influence the other
+            for j, sib in enumerate(pg.siblings(pol)):
+                lines.append("P d%ds%d %d %s %s" % (i, j, le, an, PolicyGen.tokens(sib)))
     if replay and replay.get("case"):
-        lines = [replay["case"]]
+        lines = [replay["case"]] if not replay.get("cases") else list(replay["cases"])
     inp = "\n".join(lines) + "\n"
     runs = []
     env = dict(GOENV, GORACE="halt_on_error=0 exitcode=66")
@@ -794,8 +837,13 @@ def check_C13(ctx, replay=None):
         raise RuntimeError("determ (race build) failed: " + r.stderr[-1500:])
     runs.append(r.stdout)
     nproc = 2 if q else 6
-    for _ in range(nproc):
-        r2 = ctx.run_harness(["determ"], inp)
+    orders = []
+    for k in range(nproc):
+        # the same policies in another ORDER (reversed, then shuffled): what a policy compiles to must not depend on
+        # which policies the process compiled before
+        other = list(reversed(lines)) if k == 0 else rng.sample(lines, len(lines))
+        orders.append(other)
+        r2 = ctx.run_harness(["determ"], "\n".join(other) + "\n")
         runs.append(r2.stdout)
     first = [ln.split() for ln in runs[0].splitlines() if ln.startswith("D ")]
     byid = {f[1]: f for f in first}
@@ -809,8 +857,10 @@ def check_C13(ctx, replay=None):
         for ln in out.splitlines():
             f = ln.split()
             if f and f[0] == "D" and f[1] in byid and (f[4] != byid[f[1]][4] or f[5] != byid[f[1]][5]):
-                bad("a different process compiled the same policy to a different program (or printed a value differently)", case=line_of.get(f[1]),
-                    first=byid[f[1]][4:], other=f[4:])
+                o = orders[k]
+                pos = next((n for n, ln2 in enumerate(o) if ln2.split()[1] == f[1]), 0)
+                bad("a process that compiled the same policies in another order compiled this one to a different program (or printed a value differently)", case=line_of.get(f[1]),
+                    first=byid[f[1]][4:], other=f[4:], cases=o[max(0, pos - 40):pos + 1])
     # first uses of the library happening concurrently, in fresh processes (race build): lazy initialisation and
     # "remember what was asked" caches are exercised before anything has warmed them up
     nfirst = 6 if q else 40
@@ -838,7 +888,7 @@ def check_C13(ctx, replay=None):
         bad("FilterFlag.String is not a function of the value (differs between processes)", distinct=len(texts), outputs=sorted(texts)[:2])
     ctx.coverage.update(dict(
         evaluations=len(first) * (3 + 16) * (1 + nproc), distinct_nontrivial=len(set(f[4] for f in first)),
-        rule="generated policies of every kind (incl. 10%% defective, x32): each compiled 3 times on the same value and from 16 goroutines on by-value copies sharing its slices, concurrently with architecture lookups and action/flag text conversions, in a harness built with -race; the policy deep-compared with a fresh parse afterwards; the same stream compiled in %d further processes and compared by program hash; FilterFlag.String of 0..7 across fresh processes; fresh race-built processes whose FIRST library operations (lookups under mixed-case spellings, compilations with argument conditions, text conversions) run in 16 goroutines released together and are compared with a sequential repeat; non-trivial = distinct programs compared" % nproc,
+        rule="generated policies of every kind (incl. 10%% defective, x32): each compiled 3 times on the same value and from 16 goroutines on by-value copies sharing its slices, concurrently with architecture lookups and action/flag text conversions, in a harness built with -race; the policy deep-compared with a fresh parse afterwards; the same policies compiled in %d further processes in other orders (reversed, shuffled) and compared by program hash - among them pairs that differ only in one group's unnamed action; FilterFlag.String of 0..7 across fresh processes; fresh race-built processes whose FIRST library operations (lookups under mixed-case spellings, compilations with argument conditions, text conversions) run in 16 goroutines released together and are compared with a sequential repeat; non-trivial = distinct programs compared" % nproc,
         processes=1 + nproc + nfirst, race_reports=races, concurrent_first_use_processes=first_ok, counterexamples=nbad,
         input_distribution=dict(policies=len(first), accepted=sum(1 for f in first if True)),
         samples=[lines[0][:300]],
